@@ -12,9 +12,11 @@ var props = map[string]func(*check.Ctx) int{
 	"C01": check.C01,
 	"C02": check.C02,
 	"C08": check.C08,
+	"C11": check.C11,
 	"C03": check.C03,
 	"C04": check.C04,
 	"C05": check.C05,
+	"C06": check.C06,
 	"C12": check.C12,
 }
 
